@@ -115,6 +115,7 @@ pub trait Property: Sync {
 thread_local! {
     static LAST_PANIC: RefCell<Option<String>> = RefCell::new(None);
 }
+static LAST_PANIC_GLOBAL: Mutex<Option<String>> = Mutex::new(None);
 
 pub fn install_quiet_panic_hook() {
     std::panic::set_hook(Box::new(|info| {
@@ -126,6 +127,9 @@ pub fn install_quiet_panic_hook() {
         } else {
             "<non-string panic>".to_string()
         };
+        if let Ok(mut g) = LAST_PANIC_GLOBAL.lock() {
+            *g = Some(format!("{msg} @ {loc}"));
+        }
         LAST_PANIC.with(|p| *p.borrow_mut() = Some(format!("{msg} @ {loc}")));
     }));
 }
@@ -423,6 +427,7 @@ pub fn run_property<P: Property>(p: &P, opts: &RunOpts) -> i32 {
     let outs: Mutex<Vec<(usize, ShardOut<P::Case>)>> = Mutex::new(Vec::new());
     HEARTBEAT.store(now_s(), Ordering::Relaxed);
     let done = std::sync::atomic::AtomicBool::new(false);
+    let shard_died = std::sync::atomic::AtomicBool::new(false);
     std::thread::scope(|sc| {
         // watchdog: a hang is reported as exit 2, never as a violation
         sc.spawn(|| {
@@ -542,10 +547,17 @@ pub fn run_property<P: Property>(p: &P, opts: &RunOpts) -> i32 {
             handles.push(h);
         }
         for h in handles {
-            let _ = h.join();
+            if h.join().is_err() {
+                shard_died.store(true, Ordering::Relaxed);
+            }
         }
         done.store(true, Ordering::Relaxed);
     });
+    if shard_died.load(Ordering::Relaxed) {
+        let m = LAST_PANIC_GLOBAL.lock().ok().and_then(|g| g.clone()).unwrap_or_default();
+        eprintln!("INFRA-ERROR a worker thread died outside a case (generator or runner bug): {m}");
+        return 2;
+    }
     let mut outs = outs.into_inner().unwrap();
     outs.sort_by_key(|(s, _)| *s);
     let mut first_fail: Option<(P::Case, Failure, u64)> = None;
